@@ -84,13 +84,19 @@ SYS_ASSUMPTIONS = [
     "crate (calls are resolved to the MIR bodies through the impl headers read from the source); the crates below it "
     "are Python models: alloc::sync::Arc/Weak (counts), Box, futures mpsc (capacity = buffer + one slot per sender, "
     "FIFO park queue, close on last sender/receiver drop), SinkExt::send (feed then flush), oneshot, Shared "
-    "(completes only by being polled; peek sees completed results only), abortable, Vec, Option/Result combinators, dyn-clone",
+    "(completes only by being polled; peek sees completed results only; an instance that has yielded its output is "
+    "consumed - it and clones made of it panic when polled, peek on it sees nothing), abortable, Vec / VecDeque with "
+    "addressable elements, HashMap with concrete keys, Option/Result/iterator combinators (closures executed), "
+    "std::sync::atomic cells (a poll is atomic), Receiver::close, dyn-clone; Duration literals in the code count 1 tick per second",
     "drop glue is structural (fields of aggregates, model objects by their contract); hannibal's own Drop impls are executed from MIR",
     "user code is the environment: handlers return a response tagged with their message, may stay pending "
-    "handler_pending times; started returns Ok",
+    "handler_pending times (a suspended callback is a voluntary yield: the task stays runnable, switching away from it "
+    "is free under the preemption bound); started returns Ok unless the program scripts a failure; a script step whose "
+    "handle an earlier step failed to produce ends that client (as an unwrap would)",
     "tasks are polled one at a time (single-threaded executor); every choice of the next runnable task is explored; a "
     "task blocked on a model object becomes runnable when that object changes (what the real wakers do)",
-    "bounds: the listed programs (clients x operations), <= max_steps scheduler steps; capacity n symbolic in 0..3 where stated",
+    "bounds: the listed programs (clients x operations), <= max_steps scheduler steps; capacity n symbolic in 0..3 where stated; "
+    "the always-ready-stream program is judged by a possibility oracle (some explored schedule answers the call) over <= 8 steps",
 ]
 
 
@@ -190,7 +196,12 @@ ENTRY_ASSUMPTIONS = [
     "tokio's JoinHandle yields Err(JoinError); sleep is a virtual clock.  Each contract is validated on every run against "
     "the real runtime by the native crate /verif/replay-rt (one build per feature)",
     "a program is timing-independent: outcomes are compared as the set, over all explored schedules, of the results of "
-    "the client operations plus the sequence of user callbacks",
+    "the client operations plus the sequence of user callbacks; the runtime that deviates from the other two is reported",
+    "programs blocking_<entry point>: the program runs under hannibal::runtime::block_on and the spawning task waits for "
+    "started() / stopped() without yielding; the kind of runtime is obtained by executing runtime::block_on from the MIR "
+    "against a contract model of tokio's constructors (Runtime::new / Builder::new_multi_thread: own worker threads; "
+    "Builder::new_current_thread: every task and the time driver run on the blocked thread); async-std and smol re-export "
+    "their own block_on (no hannibal code): contract = tasks run on global executor threads; native side: hv-entry blocking",
 ] + SYS_ASSUMPTIONS
 
 
